@@ -394,7 +394,7 @@ def structured_cases(ctx):
     # the fortnight around every New Year of a 28-year cycle (each leap type
     # and starting weekday), p in each representation, against the
     # designators that name such days
-    for y in range(2000, 2028):
+    for y in list(range(2000, 2028)) + [-1, 0, -5, -101, -401]:
         ny = R.days_before_year(MODE, y + 1)
         for rd in range(ny - 7, ny + 7):
             for kw in ({"day_of_week": 1}, {"week_of_year": 1,
